@@ -45,7 +45,9 @@ VARIABLES
   gctx,       \* errgroup context: "live" | "dead"
   firstErr,   \* error class Do returns ("none" = nil)
   closed, connClosed, gotExc, done,
-  info,       \* colInfo channel: [buf |-> 0..1, cl |-> BOOLEAN]
+  info,       \* colInfo channel and the column info it carries: [buf |-> 0..1, cl |-> BOOLEAN (closed),
+              \*   sent |-> the receiver's handler has handed the info over, arr |-> array the message refers to
+              \*   (0 none, 1 the receiver's own result array, 2 a private copy), raced |-> ghost, see NoInfoRace]
   ver, rows, tail, round, cbS,    \* input columns: contents version, row count class (0/1), tail mode, blocks encoded, OnInput calls
   cbR, seenRows, cblog,           \* receiver: callbacks invoked, default handler saw a non-empty block, callback log
   call, phase,                    \* number of the current call; "inDo" | "returned" | "next"
@@ -63,6 +65,12 @@ View == <<cfg, spc, rpc, wpc, rerr, once, pend, c2s, s2c, sidx, caller, gctx, fi
           gotExc, done, info, ver, rows, tail, round, cbS, cbR, seenRows, cblog, call, phase, wbroken, stalled,
           cancelAt, cancelClean, lateFault>>
 
+\* The column info of an INSERT (query.go, Do): handed to the sender once, as a copy.  Both are definitions so that a
+\* configuration can override them (MC_QL_info_neg*.cfg show what the properties catch without them).
+InfoOnce == TRUE
+InfoCopy == TRUE
+InfoInit == [buf |-> 0, cl |-> FALSE, sent |-> FALSE, arr |-> 0, raced |-> FALSE]
+
 Roles == {"S", "R", "W"}
 Tok(k, v) == [call |-> call, k |-> k, v |-> v]
 CtxDead == gctx = "dead"
@@ -75,7 +83,7 @@ InitWith(c) ==
   /\ pend = <<>> /\ c2s = <<>> /\ s2c = <<>> /\ sidx = 1
   /\ caller = "live" /\ gctx = "live" /\ firstErr = "none"
   /\ closed = FALSE /\ connClosed = FALSE /\ gotExc = FALSE /\ done = FALSE
-  /\ info = [buf |-> 0, cl |-> FALSE]
+  /\ info = InfoInit
   /\ ver = 1 /\ rows = c.initRows /\ tail = FALSE /\ round = 0 /\ cbS = 0
   /\ cbR = 0 /\ seenRows = FALSE /\ cblog = <<>>
   /\ call = 1 /\ phase = "inDo" /\ wbroken = FALSE /\ stalled = FALSE
@@ -277,7 +285,10 @@ Handle(i) ==
     [] p.k = "exc" -> gotExc' = TRUE /\ RRet("exc") /\ NoCb /\ UNCHANGED <<seenRows, info>>
     [] p.k \in BlockKinds ->
          IF cfg.scn # "select" /\ cfg.needInfo
-           THEN rpc' = "info" /\ NoCb /\ UNCHANGED <<rerr, lateFault, gotExc, seenRows, info>>
+           THEN \* ColInfoInput.DecodeResult rewrites the receiver's result array, then the handler runs; the sender reads
+                \* the info it was handed until it leaves "input" (the inference loop at the start of sendInput)
+                /\ rpc' = "info" /\ NoCb /\ UNCHANGED <<rerr, lateFault, gotExc, seenRows>>
+                /\ info' = [info EXCEPT !.raced = @ \/ (info.arr = 1 /\ spc \in {"start", "flushq", "colinfo", "input"})]
            ELSE IF "result" \in cfg.present
              THEN RunCbs(i, <<"result">>) /\ UNCHANGED <<gotExc, seenRows, info>>
              ELSE \* default handler: a second block after a non-empty one is an error
@@ -312,8 +323,10 @@ R_Timeout == /\ rpc = "read" /\ rpc' = "loop"
 (* the handler installed for input-type inference: select { ctx.Done(); colInfo <- result } *)
 R_Info ==
   /\ rpc = "info"
-  /\ \/ /\ info.buf = 0 /\ info' = [info EXCEPT !.buf = 1] /\ RStay
-     \/ /\ CtxDead /\ RRet("ctx") /\ UNCHANGED info
+  /\ \/ /\ InfoOnce /\ info.sent /\ RStay /\ UNCHANGED info          \* later header blocks: nothing to hand over
+     \/ /\ ~(InfoOnce /\ info.sent) /\ info.buf = 0
+        /\ info' = [info EXCEPT !.buf = 1, !.sent = TRUE, !.arr = IF InfoCopy THEN 2 ELSE 1] /\ RStay
+     \/ /\ ~(InfoOnce /\ info.sent) /\ CtxDead /\ RRet("ctx") /\ UNCHANGED info
   /\ NoCb /\ UNCHANGED <<s2c, gotExc, seenRows>> /\ RU
 (* The receiver's deferred calls close colInfo and done BEFORE its function  *)
 (* returns to the errgroup: the cancel-watch can run in between and sees a   *)
@@ -429,6 +442,9 @@ Fair == /\ WF_View(K(SenderNext)) /\ WF_View(K(R_Begin \/ R_Resume \/ R_Info \/ 
 (* timeout" and "cancellation" buy is expressed by fairness of R_Timeout    *)
 (* and of the caller's cancel.                                              *)
 FairSpec == Spec /\ Fair /\ WF_View(K(CallerCancel("cancelled")))
+(* Without anybody cancelling: a stream the server completes ends Do by itself *)
+(* (the server keeps sending what it has to send).                           *)
+QuietFairSpec == Spec /\ Fair /\ WF_View(K(ServerSend))
 
 -----------------------------------------------------------------------------
 (* Properties                                                              *)
@@ -483,6 +499,8 @@ CancelObliges == cancelAt = "running" /\ cancelClean /\ ~lateFault
 CancelReturnsCtx == phase = "returned" /\ CancelObliges => firstErr = "ctx"
 CancelCloses == phase = "returned" /\ CancelObliges => closed /\ connClosed
 CancelPacketOnce == Len(SelectSeq(c2s, LAMBDA t : t.k = "cancel")) <= 1
+\* the receiver never rewrites column info the sender may still be reading
+NoInfoRace == ~info.raced
 NoOrphans == Returned => spc = "exit" /\ rpc = "exit" /\ wpc = "exit"
 \* liveness: every Do returns (under FairSpec)
 Returns == <>(phase = "next")
